@@ -139,7 +139,7 @@ func TestFoxvcStandinClientIP(t *testing.T) {
 	if thorough {
 		maxLen = 4
 	}
-	st.Space = fmt.Sprintf("X-Forwarded-For: every sequence of <= %d items from %d item shapes (public, private, invalid, empty, IPv6, unspecified, benchmark range), joined on one header line and split over two lines at every position; Forwarded: the same sequences as for= items; trusted counts 1..3, limits 1..3; left padding of 0, 1, 64, 5000 and 70000 bytes for the rightmost strategies", maxLen, len(cipItems))
+	st.Space = fmt.Sprintf("X-Forwarded-For: every sequence of <= %d items from %d item shapes (public, private, invalid, empty, IPv6, unspecified, benchmark range), joined on one header line and split over two lines at every position; Forwarded: the same sequences as for= items; trusted counts 1..3, limits 1..3; left padding of 0, 1, 64, 5000 and 70000 bytes for the rightmost strategies; every subset and both orders of the three range options over the 24 orderings of a public, a private, a link-local and a loopback entry", maxLen, len(cipItems))
 	report := func(format string, a ...interface{}) {
 		if len(st.Mismatches) < 40 {
 			st.Mismatches = append(st.Mismatches, fmt.Sprintf(format, a...))
@@ -280,6 +280,86 @@ func TestFoxvcStandinClientIP(t *testing.T) {
 		}
 	}
 	rec(nil)
+	// range options: every subset of {loopback, link local, private} as trusted ranges (rightmost-non-private) and as
+	// excluded ranges (leftmost-non-private), in both option orders, over every ordering of one public, one private,
+	// one link-local and one loopback entry; resolvers with default ranges are built before and used after, so an option
+	// combination that damages the shared tables shows as well
+	{
+		defR, _ := NewRightmostNonPrivate(XForwardedForKey)
+		defL, _ := NewLeftmostNonPrivate(XForwardedForKey, 4)
+		// the documented tables as they are before any option is applied (deep copies)
+		cp := func(in []net.IPNet) []net.IPNet {
+			out := make([]net.IPNet, len(in))
+			for i, n := range in {
+				out[i] = net.IPNet{IP: append(net.IP{}, n.IP...), Mask: append(net.IPMask{}, n.Mask...)}
+			}
+			return out
+		}
+		tables := [][]net.IPNet{cp(loopbackRanges), cp(linkLocalRanges), cp(privateRange)}
+		defaults := cp(privateAndLocalRanges)
+		entries := []string{"6.6.6.6", "10.1.2.3", "169.254.0.9", "127.0.0.1"}
+		var perms [][]string
+		var permute func(cur, rest []string)
+		permute = func(cur, rest []string) {
+			if len(rest) == 0 {
+				perms = append(perms, append([]string{}, cur...))
+				return
+			}
+			for i := range rest {
+				nr := append(append([]string{}, rest[:i]...), rest[i+1:]...)
+				permute(append(cur, rest[i]), nr)
+			}
+		}
+		permute(nil, entries)
+		for mask := 0; mask < 8; mask++ {
+			for _, reversed := range []bool{false, true} {
+				var ropts []TrustedRangeOption
+				var lopts []BlacklistRangeOption
+				var want []net.IPNet
+				order := []int{0, 1, 2}
+				if reversed {
+					order = []int{2, 1, 0}
+				}
+				for _, k := range order {
+					on := mask&(1<<k) != 0
+					switch k {
+					case 0:
+						ropts, lopts = append(ropts, TrustLoopback(on)), append(lopts, ExcludeLoopback(on))
+					case 1:
+						ropts, lopts = append(ropts, TrustLinkLocal(on)), append(lopts, ExcludeLinkLocal(on))
+					case 2:
+						ropts, lopts = append(ropts, TrustPrivateNet(on)), append(lopts, ExcludePrivateNet(on))
+					}
+					if on {
+						want = append(want, tables[k]...)
+					}
+				}
+				if mask == 0 {
+					want = defaults
+				}
+				rr, _ := NewRightmostNonPrivate(XForwardedForKey, ropts...)
+				lr, _ := NewLeftmostNonPrivate(XForwardedForKey, 4, lopts...)
+				for _, pm := range perms {
+					lines := []string{strings.Join(pm, ", ")}
+					es := refEntries(lines, false)
+					h := http.Header{XForwardedForKey.String(): lines}
+					st.Evaluations += 4
+					if got, w := show(rr.ClientIP(mkctx(h))), refRightmostNonPrivate(es, want); got != w {
+						report("rightmost-non-private options mask=%d reversed=%v lines=%s: want %+v, got %+v", mask, reversed, brief(lines), w, got)
+					}
+					if got, w := show(lr.ClientIP(mkctx(h))), refLeftmostNonPrivate(es, 4, want); got != w {
+						report("leftmost-non-private options mask=%d reversed=%v lines=%s: want %+v, got %+v", mask, reversed, brief(lines), w, got)
+					}
+					if got, w := show(defR.ClientIP(mkctx(h))), refRightmostNonPrivate(es, defaults); got != w {
+						report("rightmost-non-private (default ranges, after option mask=%d) lines=%s: want %+v, got %+v", mask, brief(lines), w, got)
+					}
+					if got, w := show(defL.ClientIP(mkctx(h))), refLeftmostNonPrivate(es, 4, defaults); got != w {
+						report("leftmost-non-private (default ranges, after option mask=%d) lines=%s: want %+v, got %+v", mask, brief(lines), w, got)
+					}
+				}
+			}
+		}
+	}
 	out, _ := json.Marshal(st)
 	fmt.Printf("STANDIN %s\n", out)
 	for _, m := range st.Mismatches {
